@@ -88,6 +88,21 @@ def must_reject(lines):
     return out
 
 
+UNDEFINED_DIRECTIVES = ['    .fill 0, undefined_q', '    .fill undefined_q, 0', '    .fill 2, undefined_q + 1', '    .zero undefined_q',
+                        '    .zerountil undefined_q', '    .org undefined_q', '    .align undefined_q', 'KU = undefined_q',
+                        '    .byte 1, undefined_q', '    .2byte BYTE1(undefined_q)', '    .fill 1 - 1, undefined_q',
+                        '    .fill KZ, undefined_q']
+
+
+def must_reject_insertions(lines):
+    """An unresolvable label in any directive position - also where the directive ends up emitting nothing - must not assemble."""
+    out = []
+    for i in range(len(lines) + 1):
+        for d in UNDEFINED_DIRECTIVES:
+            out.append((f'insert {d.strip()!r} before line {i}: unresolvable label', ['KZ = 0'] + lines[:i] + [d] + lines[i:]))
+    return out
+
+
 def long_expressions(n):
     toks = ' '.join(['1'] * n)
     mixed = ' '.join(['1', '+'] * (n // 2) + ['1'])
@@ -104,7 +119,8 @@ def meta(tier):
         'rule': 'base programs (6, together using every line kind incl. includes, macros, zones, strings, conditionals) x every single '
                 'deviation: drop / duplicate / garble (5 characters) each token, drop / duplicate each line, insert a zero-length '
                 'directive at each position, and the four must-reject replacements (undefined label, unknown mnemonic, operands no '
-                'variant accepts, value just outside its field on either side); expression-length family (N in 8,16,24,32,64 tokens in every expression position); each '
+                'variant accepts, value just outside its field on either side), a directive with an unresolvable label inserted at each '
+                'position (also directives that emit nothing: .fill 0, x); expression-length family (N in 8,16,24,32,64 tokens in every expression position); each '
                 'under the output configurations (no pretty print / each of 4 formats / a window) with the output file pre-seeded with '
                 'a sentinel (and, for line-level deviations, absent); thorough: every pair of line-level deviations; '
                 'non-trivial = execution that ends in a rejection, or a must-reject deviation; states: n/a',
@@ -187,7 +203,8 @@ def shard(acc, tier, idx, n):
                 execute(acc, new, f'{bname}: {what}', None, 'invariants', cfg)
             if line_level:
                 execute(acc, new, f'{bname}: {what}', None, 'invariants', CONFIGS[0], preseed=False)
-        for what, new in must_reject(lines):
+        # (not into the base with conditional blocks: a line inserted into an unselected branch is rightly ignored)
+        for what, new in must_reject(lines) + ([] if bname == 'control' else must_reject_insertions(lines)):
             ctr += 1
             if ctr % n != idx:
                 continue
